@@ -79,7 +79,7 @@ CHECKS = {
    ref="DESIGN.md §6 C18", note="trusted base: the grammar and renderer in harness/props/web.go, rapid; findings KF-C18-empty-fragment and KF-C18-nested-dots attributed by counterfactual classifiers"),
  "C02": dict(
    technique="stateful property-based testing / robustness fuzzing (rapid): generated configurations x generated API programs over a register file of URLs, recover() around every step, (nil, nil) contract, hang watchdog confirmed in a fresh process",
-   text="A configuration (predefined profile, or 0..6 of 25 options with valued options from families incl. special-scheme maps without file, encoding overrides, generated encode sets, total host callbacks) and a program (initial parse with hostile / arbitrary / very long arguments, then up to 12 setter, resolve, clone, SearchParams (incl. Iterate callbacks that call back into the same list; lists of 9..65 parameters with look-ups around search-setter calls), SetSearchParams, BasicParser with the setters' state overrides, NewUrl, encode/decode and profile operations) are executed with all getters called after every step; any panic, (nil, nil) result or non-returning call is a violation.",
+   text="A configuration (predefined profile, or 0..6 of 25 options with valued options from families incl. special-scheme maps without file, encoding overrides, generated encode sets, total host callbacks) and a program (initial parse with hostile / arbitrary / very long arguments, then up to 12 setter, resolve, clone, SearchParams (incl. Iterate callbacks that call back into the same list; lists of 9..65 parameters with look-ups around search-setter calls), SetSearchParams, BasicParser with the setters' state overrides, NewUrl, encode/decode and profile operations) are executed with all getters called after every step (a quarter of the programs: only after the last step); any panic, (nil, nil) result or non-returning call is a violation.",
    ref="DESIGN.md §6 C02, §7.8", note="trusted base: recover()/watchdog harness in harness/props/c02.go and harness/core, rapid"),
  "C14": dict(
    technique="property-based testing (rapid) over generated concurrent programs on shared parsers / profiles / base URLs, executed under the Go race detector (-race), with a sequential-equivalence oracle and table-immutability fingerprints",
